@@ -616,6 +616,17 @@ impl<'repo> StackTransaction<'repo> {
         self.ui.print_pushed(patchname, push_status, is_last)
     }
 
+    /// Set the stack base, i.e. the commit below the bottommost applied patch.
+    ///
+    /// This is used by `stg repair` when the branch history has been changed such
+    /// that the applied patches no longer sit on top of the stack's previous base,
+    /// e.g. when the history now ends at a merge commit.
+    pub(crate) fn set_base(&mut self, commit_id: gix::ObjectId) -> Result<()> {
+        let commit = self.stack.repo.find_commit(commit_id)?;
+        self.updated_base = Some(Rc::new(commit));
+        Ok(())
+    }
+
     /// Update patches' applied, unapplied, and hidden dispositions.
     ///
     /// This is used by `stg repair` to account for changes to the repository made by
